@@ -97,8 +97,10 @@ theorem compatScalar_pbEncode (t : Ty) (n : Nat) (hc : compatScalar t = true) : 
 
 /-- a compatible member that is not length-delimited is a scalar -/
 theorem compat_nonLD_scalar (t : Ty) (hc : compatTy t = true) (hld : t.isLD = false) : compatScalar t = true := by
-  cases t <;> simp only [isLD_str, isLD_vec, isLD_agg, Bool.true_eq_false] at hld <;>
-    first | (simpa [compatTy] using hc) | (simp [compatTy, compatScalar] at hc)
+  cases t <;> first
+    | (simp at hld; done)
+    | (simpa [compatTy] using hc)
+    | (simp [compatTy, compatScalar] at hc)
 
 theorem mapSeq_self (f : Val → Val) : ∀ v, (∀ x, v.mem x = true → f x = x) → mapSeq f v = v := by
   intro v
@@ -245,20 +247,23 @@ theorem pb_rtFields (dbg : Bool) : ∀ (suf : Fields), wfFields suf = true → c
         simp only [Bool.and_eq_true] at habs
         cases t with
         | vec te =>
-          cases dx <;> simp only [resettable, Bool.false_eq_true] at hd
+          have hdx : dx = .nil := by
+            cases dx <;> first | rfl | exact absurd hd.1 (by simp [resettable])
+          subst hdx
           simp only [compatTy] at hc
           simp only [hasTy] at hty
           have hem : pbEncode (.vec te) x = [] := by simpa using habs.2
           simp only [pbEncode] at hem
           cases x with
           | cons h tl =>
-            simp only [allSeq, Bool.and_eq_true] at hty
-            obtain ⟨m, rfl⟩ := compatScalar_num te h hc.1 hty.1.1
-            have hne := (pb_scalar (Cfg.repaired dbg) te m .nil ht.1.1.2 hc.1 hty.1.1).2
+            have hty1 := hty.1
+            simp only [allSeq, Bool.and_eq_true] at hty1
+            obtain ⟨m, rfl⟩ := compatScalar_num te h hc.1 hty1.1
+            have hne := (pb_scalar (Cfg.repaired dbg) te m .nil ht.1.1.2 hc.1 hty1.1).2
             simp only [catSeq] at hem
             exact absurd (List.append_eq_nil_iff.mp hem).1 hne
           | nil => rfl
-          | _ => simp [allSeq] at hty
+          | _ => exact absurd hty.1 (by simp [allSeq])
         | _ => simp [Ty.isVec] at habs
       simp only [pbEncodeFields, pbField, habs, if_true, List.nil_append] at hw ⊢
       rw [hxd]
